@@ -66,6 +66,9 @@ fn judge(data: &[u8], t: &mut Tally) -> Option<(String, String)> {
 }
 
 fn case_json(data: &[u8], desc: &str) -> Value {
+    if data.len() > (1 << 16) && lzfam::build_recipe_checked(desc).as_deref() == Some(data) {
+        return json!({"recipe": desc, "len": data.len()});
+    }
     json!({"desc": desc, "len": data.len(), "hex": util::hex(&data[..data.len().min(1 << 16)]), "truncated": data.len() > (1 << 16)})
 }
 
@@ -98,11 +101,8 @@ fn explore(ctx: &Ctx) -> Outcome {
     let mut rest: Vec<LzInput> = lzfam::structure_grid(ctx.tier);
     let grid_n = rest.len();
     rest.extend(lzfam::header_boundaries(ctx.tier));
-    // around 1 MiB (a size limit written with one hex digit too few shows only here); cheap for LZ10
-    for n in [0xF_FFFFusize, 0x10_0000, 0x10_0001, 0x20_0000] {
-        rest.push(LzInput { family: "header", desc: format!("zeros n={}", n), data: vec![0u8; n] });
-        rest.push(LzInput { family: "header", desc: format!("period-3 n={}", n), data: (0..n).map(|i| (i % 3) as u8).collect() });
-    }
+    // large inputs, each described by a recipe (replayable)
+    rest.extend(lzfam::big_inputs(ctx.tier, false));
     let t = rest
         .par_iter()
         .fold(Tally::new, |mut t, inp| {
@@ -159,13 +159,18 @@ fn explore(ctx: &Ctx) -> Outcome {
         o.warn(format!("vacuity note: reference classes never emitted: {:?}", missing));
     }
     o.assumptions = vec![
-        "inputs up to 2 MiB (16 MiB-1 at the thorough tier) — 'every input shorter than 16 MiB' is covered at the length boundaries and by small-scope exhaustion, not in full".into(),
+        "inputs up to 16 MiB-8 KiB (16 MiB-1 at the thorough tier) — 'every input shorter than 16 MiB' is covered at the length boundaries and by small-scope exhaustion, not in full".into(),
         "unused flag bits of the last group are not constrained".into(),
     ];
     o
 }
 
 fn replay(_ctx: &Ctx, case: &Value) -> Vec<Violation> {
+    if let Some(r) = case["recipe"].as_str() {
+        let data = lzfam::build_recipe(r);
+        let mut t = Tally::new();
+        return judge(&data, &mut t).map(|(sig, summary)| vec![Violation { sig, summary, case: case.clone() }]).unwrap_or_default();
+    }
     if case["truncated"].as_bool().unwrap_or(false) {
         return vec![];
     }
